@@ -1377,6 +1377,7 @@ func runC04(c *core.Ctx) core.Meta {
 	checkVOP3bMembership(c, t)
 	checkDstRegisterFile(c, t)
 	checkVOP3PModifiers(c, t)
+	checkTableIndependentOfConfiguration(c)
 	checkFLATOperands(c, t)
 	checkSMEMOperands(c, t)
 	checkSOP2Operands(c, t)
